@@ -38,7 +38,8 @@ def check_kw(case, stats):
     F, SC, SO = D["feature"][0], D["scenario"][0], D["scenarioOutline"][0]
     stats.case((d, cat, kw, mode, lay), True, sample=case, labels=[cat, mode] + (["no-space-step-keyword"] if cat in STEP_CATS and not kw.endswith(" ") else []))
     if cat in TITLE_CATS:
-        line = kw + ":" + sep + "name" + trail
+        name = "name" if lay != 2 else "again " + kw + ": twice"   # layout 2: the name repeats its own keyword and colon
+        line = kw + ":" + sep + name + trail
         body = {"feature": [ind + line],
                 "rule": [F + ":", ind + line],
                 "background": [F + ":", ind + line],
@@ -62,9 +63,9 @@ def check_kw(case, stats):
                 node = node[p]
         except (KeyError, IndexError):
             raise Violation(case, "%s keyword %r of dialect %s: no %s in the AST\n%s" % (cat, kw, d, cat, text))
-        if node["keyword"] != want_kw or node["name"] != "name" or node["location"]["column"] != len(ind) + 1:
-            raise Violation(case, "%s line %r: AST says keyword %r name %r column %r; expected keyword %r name 'name' column %d" % (
-                cat, line, node["keyword"], node["name"], node["location"]["column"], want_kw, len(ind) + 1))
+        if node["keyword"] != want_kw or node["name"] != name or node["location"]["column"] != len(ind) + 1:
+            raise Violation(case, "%s line %r: AST says keyword %r name %r column %r; expected keyword %r name %r column %d" % (
+                cat, line, node["keyword"], node["name"], node["location"]["column"], want_kw, name, len(ind) + 1))
     else:
         line = kw + "text" + trail
         want_kw, want_type = expected_step(d, line)
